@@ -753,7 +753,7 @@ def make_rm32(mnemonic, opcode, o, write_rm=True):
     rm = Operand("rm", rm32_modes)
     syntax = Syntax([mnemonic, " ", rm], priority=2)
     members = {"syntax": syntax, "rm": rm, "opcode": opcode, "reg": o}
-    bases = (RmWrite, RmBase) if write_rm else (RmBase,)
+    bases = (RmWrite, RmBase32) if write_rm else (RmBase32,)
     return type(mnemonic.title(), bases, members)
 
 
